@@ -901,8 +901,19 @@ def run_converse(case) -> CaseResult:
         plist = {'user': [case['user']], 'empty': [],
                  'other': ['mallory'], 'both': ['mallory', case['user']]}[
                      cert_princ]
+        # validity window of the certificate (absent in older cases: from
+        # the epoch, for ever)
+        now = int(time.time())
+        forever = 0xffffffffffffffff
+        wname, wshape = case.get('cert_window', ('valid', 0))
+        shapes = {'valid': [(0, forever), (now - 3600, now + 3600),
+                            (now - 3600, forever), (0, now + 3600)],
+                  'expired': [(now - 7200, now - 3600), (0, now - 3600)],
+                  'future': [(now + 3600, now + 7200),
+                             (now + 3600, forever)]}[wname]
+        va, vb = shapes[wshape % len(shapes)]
         cert = signer.generate_user_certificate(
-            ukey, 'kid', principals=plist,
+            ukey, 'kid', principals=plist, valid_after=va, valid_before=vb,
             permit_pty='no-pty' not in optstr and case['cert_pty'],
             force_command='cert-cmd' if case['cert_cmd'] else None)
         copts['client_keys'] = [(ukey, cert)]
@@ -915,10 +926,16 @@ def run_converse(case) -> CaseResult:
         option_ok = not ca_princ or any(p in plist
                                         for p in ca_princ.split(','))
         cert_ok = case['valid'] and case['user'] == 'alice' and \
-            names_user and option_ok
+            names_user and option_ok and wname == 'valid'
         key_ok = case['user'] == 'alice' and from_ok and key_listed
         labels_extra = {'cert-princ:' + cert_princ,
-                        'ca-line:' + ('principals' if ca_princ else 'plain')}
+                        'ca-line:' + ('principals' if ca_princ else 'plain'),
+                        'cert-window:%s:%s-%s' % (
+                            wname, 'from-0' if va == 0 else 'from-t',
+                            'forever' if vb == forever else 'to-t')}
+        if case['valid'] and case['user'] == 'alice' and names_user and \
+                option_ok and wname != 'valid':
+            labels_extra.add('cert-refused-by-window')
         if case['valid'] and case['user'] == 'alice' and not cert_ok:
             labels_extra.add('cert-refused-by-principals')
         expect = cert_ok or key_ok
@@ -1054,7 +1071,9 @@ def converse_strategy(tier: str):
         'cert_pty': st.booleans(), 'cert_cmd': st.booleans(),
         'key_listed': pick([True, False]),
         'ca_princ': pick(['alice', 'alice', '', 'bob,alice', 'bob']),
-        'cert_princ': pick(['user', 'user', 'empty', 'other', 'both'])})
+        'cert_princ': pick(['user', 'user', 'empty', 'other', 'both']),
+        'cert_window': st.tuples(pick(['valid', 'valid', 'valid', 'expired',
+                                       'future']), st.integers(0, 3))})
 
 
 def switch_cases(tier: str):
@@ -1128,6 +1147,9 @@ FAMILIES = [
                              'via-cert', 'via-agent', 'via-agent-cert',
                              'session-opened', 'cert-princ:empty',
                              'cert-refused-by-principals',
+                             'cert-refused-by-window',
+                             'cert-window:future:from-t-forever',
+                             'cert-window:expired:from-0-to-t',
                              'ca-line:plain']},
            case_timeout=120),
     Family('switch', run_history, enumerate=switch_cases, exhaustive=True,
